@@ -166,7 +166,8 @@ CLAIMS['C19']['text'] += " T1 half (X1): twelve client <-> server scenarios (res
 CLAIMS['C19']['note'] = "Eight X2 models (client: remember / expire / mid / blocked / push; server: remember / expire / blocked) and the T1 half share the tier budget; only completed depths / levels are claimed."
 CLAIMS['C07']['text'] += " Scenarios include push, graceful and abrupt shutdown, parked requests, client- and server-side connection drops. The user-ping handle across the end of the connection is checked with loom over the real ping_pong.rs (models end-*: every interleaving of 'pong arrives, connection dropped' with poll_pong / send_ping, and a drop in every state of the handle): afterwards every operation must fail within three steps, never stay Pending."
 CLAIMS['C20']['text'] += " (3) X4 idle-close models (threads-idle, threads-idle-mid): one SendRequest, up to two body-less requests answered completely by the peer; polling, reading and dropping of ResponseFuture / SendStream / RecvStream / the SendRequest itself on the second thread between polls or inside the connection's poll; from every state: everything is let go, nothing more arrives, and the connection must still send GOAWAY(NO_ERROR) and complete."
-CLAIMS['C09']['text'] = CLAIMS['C09']['text'].replace("32 states per", "39 states per")
+CLAIMS['C20']['text'] += " (4) X4 server model (threads-server): the peer opens up to two streams; SendResponse / RecvStream / SendStream of every accepted stream are moved to the second thread as soon as the connection hands them out; respond, send_data (1800 octets, chained and window-split), send_reset, push_request, read + release, drops - between polls or inside the connection's poll; same invariants and epilogue."
+CLAIMS['C09']['text'] = CLAIMS['C09']['text'].replace("32 states per", "40 states per")
 CLAIMS['C10']['note'] += " The length sweep uses single-symbol strings per Huffman code-length class."
 
 WORK = " The quick tier is bounded by work (explicit depths / per-level execution caps, DESIGN.md 5), so that its coverage does not depend on machine speed; the thorough tier is bounded by time and claims only completed levels."
